@@ -622,7 +622,7 @@ double Find_Root(std::function<double(double)> func, double xLeft, double xRight
 			double g2 = std::ldexp(f2, -exponent);
 			double g3 = std::ldexp(f3, -exponent);
 			double s  = sqrt(g3 * g3 - g1 * g2);
-			double x4 = (s > 0.0) ? x3 + (x3 - x1) * Sign(g1 - g2) * g3 / s : x3;
+			double x4 = (s > 0.0 && std::isfinite(s)) ? x3 + (x3 - x1) * Sign(g1 - g2) * g3 / s : x3;   // (an infinite function value: bisect)
 			// In exact arithmetic x4 lies inside the bracket; rounding can push it past the nearer end by a few ulp.
 			if(x4 < std::min(x1, x2))
 				x4 = std::min(x1, x2);
